@@ -49,7 +49,47 @@ def _pairs(func: ast.AST, name: str) -> int:
     return count
 
 
+def _first_evaluated(expr: ast.AST):
+    """(holder, field, index) of the sub-expression of a test that is evaluated first, when it is ``name := value``"""
+    holder, field, index = None, None, None
+    current = expr
+    while True:
+        if isinstance(current, ast.NamedExpr):
+            return holder, field, index, current
+        if isinstance(current, ast.BoolOp):
+            holder, field, index, current = current, "values", 0, current.values[0]
+        elif isinstance(current, ast.Compare):
+            holder, field, index, current = current, "left", None, current.left
+        elif isinstance(current, ast.UnaryOp):
+            holder, field, index, current = current, "operand", None, current.operand
+        else:
+            return None
+
+
+def _unwalrus(body: List[ast.stmt]) -> List[ast.stmt]:
+    """``if (x := e) ...:`` -> ``x = e`` followed by ``if x ...:`` (the assignment expression is what the test
+    evaluates first, so nothing moves across it); one spelling for the rules"""
+    out: List[ast.stmt] = []
+    for stmt in body:
+        if isinstance(stmt, ast.If):
+            found = _first_evaluated(stmt.test)
+            if found is not None and isinstance(found[3].target, ast.Name):
+                holder, field, index, walrus = found
+                assign = ast.copy_location(ast.Assign(targets=[ast.copy_location(ast.Name(id=walrus.target.id, ctx=ast.Store()), walrus)], value=walrus.value), stmt)
+                load = ast.copy_location(ast.Name(id=walrus.target.id, ctx=ast.Load()), walrus)
+                if holder is None:
+                    stmt.test = load
+                elif index is None:
+                    setattr(holder, field, load)
+                else:
+                    getattr(holder, field)[index] = load
+                out.append(assign)
+        out.append(stmt)
+    return out
+
+
 def _fold_block(func: ast.AST, body: List[ast.stmt]) -> List[ast.stmt]:
+    body = _unwalrus(body)
     out: List[ast.stmt] = []
     index = 0
     while index < len(body):
